@@ -234,6 +234,9 @@ class WsgiBody:
 class AsgiBody:
     """req.stream (ASGI, contract of C07): observed through the trace only."""
 
+    def __pyvc_truth__(self):
+        return True  # an ordinary object (no __bool__/__len__): always true, as for the real class
+
     def __init__(self, v, trace):
         self.trace = trace
         self.body = v.bytes('body')
@@ -592,6 +595,9 @@ def in_bytes(v, name):
 class Loads:
     """json.loads (or a drop-in): a document, or a ValueError of one of the three kinds seen in practice."""
 
+    def __pyvc_truth__(self):
+        return True  # a callable object: always true
+
     def __init__(self, v):
         self.v = v
         self.calls = []
@@ -621,6 +627,9 @@ class Loads:
 @stubclass
 class Dumps:
     """json.dumps (or a drop-in such as orjson.dumps that returns bytes)."""
+
+    def __pyvc_truth__(self):
+        return True  # an ordinary object (no __bool__/__len__): always true, as for the real class
 
     def __init__(self, v, returns_bytes):
         self.v = v
